@@ -87,6 +87,9 @@ sut_inst_t sut_tz_utc(sut_inst_t local, int zh);
 sut_inst_t sut_tz_loc(sut_inst_t utc, int zh);
 int sut_tz_offs(sut_inst_t utc, int zh);       /* seconds */
 
+/* C03: mux session, see sut_strm.c */
+int sut_mux_session(const char *ics, size_t len, const char *ops, int cap, int mode, sut_buf_t *out);
+
 /* C09: direct filler call on an exact-size block; -1 if the rule is not accepted */
 int sut_fill(const char *rrule, sut_inst_t proto, int *count_out);
 
